@@ -417,6 +417,19 @@ def path_events(fn, path):
         yield from fn.blocks[bid].events
 
 
+def zero_forms(d):
+    """`(x == 0)` true and `x` false are one assumption (switch case vs. if): make both spellings available.  Only for functions in
+    which the variables involved are tested once per path (path assumptions are keyed by name, first test wins)."""
+    for a, p in list(d.items()):
+        if p is None:
+            continue
+        if a.startswith("(") and a.endswith(" == 0)"):
+            d.setdefault(a[1:-6], not p)
+        else:
+            d.setdefault("(%s == 0)" % a, not p)
+    return d
+
+
 def path_assumes(path):
     d = {}
     for (_b, at) in path:
@@ -736,3 +749,52 @@ def simulate(f, path, preset=None):
     return True, env, assumed, evs
 
 
+
+
+def value_sources(f, name, _seen=None):
+    """Canonical strings of the non-variable expressions a local can hold, followed through copies between locals (flow-insensitive)."""
+    _seen = _seen if _seen is not None else set()
+    if name in _seen:
+        return set()
+    _seen.add(name)
+    out = set()
+    for d in f.events():
+        if d.kind in ("decl", "assign") and d.lhs is not None and d.rhs is not None and S(d.lhs) == name:
+            r = strip(d.rhs)
+            if r["k"] == "var" and r.get("vk") in ("local", "param") and cval(r) is None:
+                out |= value_sources(f, r["name"], _seen)
+            else:
+                out.add(S(r))
+    return out
+
+
+def path_final_const(f, path, lvalue):
+    """Constant held by `lvalue` (canonical string) at the end of an enumerated path, folding `=`, `|=`, `&=` of constants and copies of
+    locals whose constant is known on this path.  Returns (stored, value): stored False when the path never stores to it; value None
+    when the stored value is not a constant."""
+    ints = {}
+    stored, val = False, None
+    for ev in path_events(f, path):
+        if ev.kind not in ("decl", "assign") or ev.lhs is None or ev.rhs is None:
+            continue
+        name = S(ev.lhs)
+        op = ev.e.get("op", "=") if ev.kind == "assign" else "="
+        rv = const_eval(ev.rhs, ints, {})
+        isvar = strip(ev.lhs)["k"] == "var"
+        cur = ints.get(name) if isvar else (val if name == lvalue else None)
+        if op == "=":
+            new = rv
+        elif op == "|=" and rv is not None and cur is not None:
+            new = cur | rv
+        elif op == "&=" and rv is not None and cur is not None:
+            new = cur & rv
+        else:
+            new = None
+        if isvar:
+            if new is None:
+                ints.pop(name, None)
+            else:
+                ints[name] = new
+        if name == lvalue:
+            stored, val = True, new
+    return stored, val
